@@ -168,7 +168,14 @@ def _fold(stmts, i, cx, final):
         if last or s.get('init') is None:
             return unsupported(s)
         init = tr_expr(s['init'], cx)
-        # `const X: T = e` / `let x: T = e`: the annotation is checked by rustc; the model is dynamically typed
+        # `const X: T = e` / `let x: T = e`: the annotation is checked by rustc; the model is dynamically typed,
+        # except that an unsuffixed integer literal takes the annotated type (as rustc infers it)
+        ini = s['init']
+        if s.get('ty') and ity(s['ty']) and ini.get('e') == 'lit' and ini.get('kind') == 'int' and ini.get('suffix') == '':
+            init = '(ELit %s %s)' % (ity(s['ty']), ini['value'])
+        elif s.get('ty') and ity(s['ty']) and ini.get('e') == 'un' and ini.get('op') == '!' and ini['x'].get('e') == 'lit' \
+                and ini['x'].get('kind') == 'int' and ini['x'].get('suffix') == '':
+            init = '(ENot (ELit %s %s))' % (ity(s['ty']), ini['x']['value'])
         cx.locals.add(s['name'])
         body = _fold(stmts, i + 1, cx, final)
         return '(ELet %s %s %s)' % (cstr(s['name']), init, body)
@@ -232,7 +239,7 @@ def int_lit(e):
 
 
 def coq_enum_prog(name, xj):
-    bad = '(mkEnumProg %s false [] false None 0 (None, 0) false (None, 0) None false [] DefOther)' % cstr(name)
+    bad = '(mkEnumProg %s false [] false None 0 (None, 0) false (None, 0) None false [] DefOther true [] false)' % cstr(name)
     if not xj.get('ok'):
         return bad
     enum = None
@@ -332,9 +339,12 @@ def coq_enum_prog(name, xj):
                 new_ok = True
                 new_param = pt
     b = lambda x: 'true' if x else 'false'
-    return '(mkEnumProg %s %s [%s] %s %s %d %s %s %s %s %s [%s] %s)' % (
+    roots = set()
+    collect_roots([it for it in xj['items'] if it['kind'] != 'enum'], roots)
+    docs = all(f in fns and has_doc_attr(fns[f]['attrs']) for f in ('raw_value', 'new_with_raw_value'))
+    return '(mkEnumProg %s %s [%s] %s %s %d %s %s %s %s %s [%s] %s %s [%s] %s)' % (
         cstr(name), b(derive), '; '.join(vs), b(raw_ok), ctor, cast, raw_ret, b(new_ok), new_param, ret_result, b(reader),
-        '; '.join(arms), default)
+        '; '.join(arms), default, b(xj.get('has_unsafe')), '; '.join(cstr(r) for r in sorted(roots)), b(docs))
 
 
 # ---- everything around the accessor bodies: struct item, constants, trait impls, builder ------------
